@@ -217,7 +217,7 @@ ANN_CORDS = {
         3: 'proof { reveal(attacked_by); }',
     },
     'before_text': [('// Check from king', 0, KING_HINT)],
-    'expect': {'loops': ['for', 'while', 'for', 'while', 'for'], 'returns': 4, 'contains': ['&[(1, 0), (-1, 0), (0, 1), (0, -1)]', '&[(1, -1), (1, 1), (-1, 1), (-1, -1)]']},
+    'expect': {'loops': ['for', 'while', 'for', 'while', 'for'], 'returns': 4, 'contains': ['&[(1, 0), (-1, 0), (0, 1), (0, -1)]', '&[(1, -1), (1, 1), (-1, 1), (-1, -1)]', '&KNIGHT_CORDS', '// Check from king']},
 }
 ANN_IS_CHECK = {
     'ret': 'res',
